@@ -88,7 +88,7 @@ CLAIMED = {
     "C15": (ENGINE_C, "fault_enumeration",
             "Zarr writer over a fault/snapshot store: crash point after every flush, k-th store write failing",
             "Per history a flush follows recorded draws with probability up to 1 (crash point after every recorded draw), for chunk sizes 1, smaller than, equal to, larger than and not dividing the draw counts; after each flush a fresh zarrs reader on a snapshot of the store must read the acknowledged prefix of every variable and statistic of the flushed chain (all chains' earlier acknowledgements are re-checked periodically and after finalize). A second batch fails the k-th store write: the call must return Err without panic and acknowledged prefixes must still read back.",
-            "Sync writer on MemoryStore only (async writer / filesystem store not covered, see DESIGN.md §9). A crash is modelled as 'nothing after this store state survives'.",
+            "Sync writer on the zarrs MemoryStore and (a fifth of the flush-point runs, a quarter of the write-fault runs) on the real zarrs FilesystemStore in a scratch directory; async writer on a delaying in-memory store (tokio itself is not under the simulator, DESIGN.md §0.3). A crash is 'the process stops between two calls; what the store holds at that moment survives' - torn or lost writes inside a call are outside the property's quantifier.",
             "DESIGN.md §5 C15"),
     "C18": (ENGINE_A, "exploration",
             "seeded simulation of MCLMC chains with fault injection (divergence position, nested step-size retries); every ESH update / normalisation observed at the delegating Math seam compared with the closed form; history oracles",
